@@ -408,13 +408,29 @@ def check_main(args):
         if rc != 0:
             proof_problems.append("leanchecker rejected PS.Props.%s: %s" % (pid, out[-800:]))
 
+    # ---- 1b drift probe (DESIGN §2.2 step 2): has the library's source changed since the models were aligned?
+    # A difference never fails the check; it enlarges the correspondence / search budget.
+    try:
+        from harness import drift as _drift
+        props = [json.loads(l) for l in open(os.path.join(VERIF, "properties.jsonl")) if l.strip()]
+        anchor_files = set(next(p for p in props if p["id"] == pid)["anchors"]["files"]) | set(meta.get("anchor_files_extra", []))
+        drift_anchor, drift_other = _drift.drift(REPO, os.path.join(HERE, "anchors.json"), anchor_files)
+    except Exception as e:  # the probe is advisory
+        drift_anchor, drift_other = [], []
+    escalate = 1
+    if proof_problems:
+        escalate = 4
+    elif drift_anchor:
+        escalate = 4 if args.tier == "quick" else 2
+    elif drift_other:
+        escalate = 2 if args.tier == "quick" else 1
+
     # ---- 2 correspondence / oracle stage
     ncases = meta["cases"][args.tier]
-    if proof_problems:
-        ncases *= 4  # escalated failing-input search
+    ncases *= escalate  # escalated failing-input search
     nw = max(1, min(16, int(meta.get("workers", 12)), ncases, (os.cpu_count() or 4)))
     per = (ncases + nw - 1) // nw
-    budget = meta.get("budget_s", {"quick": 150, "thorough": 1500})[args.tier] * (4 if proof_problems else 1)
+    budget = meta.get("budget_s", {"quick": 150, "thorough": 1500})[args.tier] * escalate
     tmpdir = os.path.join(VERIF, "replays", f".tmp-{pid}-{os.getpid()}")
     os.makedirs(tmpdir, exist_ok=True)
     procs = []
@@ -541,6 +557,7 @@ def check_main(args):
             "model_lines": sum(r["model_lines"] for r in results),
             "timeouts": sum(r["timeouts"] for r in results),
             "proof_problems": proof_problems, "known_findings_seen": sorted(seen_findings), "notes": notes,
+            "drift": {"anchor_files_changed": drift_anchor, "other_files_changed": drift_other, "budget_factor": escalate},
             "explanation": meta.get("explanation", ""),
             "repo": REPO,
         },
